@@ -183,6 +183,13 @@ class CheckRun:
             for v in self.violations[:10]:
                 print(f"VIOLATION property={self.prop} replay={v.get('replay', '<see evidence>')}")
                 print("   " + v["finding"][:400])
+            if len(self.violations) > 10:
+                import re as _re
+
+                agg = collections.Counter(_re.sub(r"\|[^:]*:", "|..:", _re.sub(r"\d+", "#", v["finding"]))[:150] for v in self.violations)
+                print("  violation classes:")
+                for k, c in agg.most_common(40):
+                    print(f"   {c:4d} x {k}")
             print(f"{self.prop}: {len(self.violations)} violation(s) in {self.evaluations} cases")
             return 1
         if self.inconclusive:
